@@ -240,6 +240,7 @@ func runSrv(ts []string) string {
 	}
 	if cfg[2] == '1' {
 		srv.OnAcceptConnFunc = func(ctx context.Context, remoteAddr net.Addr, connectionCount uint64) error {
+			_ = srv.Addr() // a callback may ask the server about itself
 			var k int
 			var hold chan struct{}
 			e.with(func() {
@@ -753,6 +754,11 @@ func runSrv(ts []string) string {
 			if !settle() {
 				o += "-stuck"
 			}
+		case "xh":
+			// the context given to Serve is cancelled while a held accept callback keeps Serve from returning: no wait here
+			cancelled = true
+			cancel()
+			o = "ok"
 		case "g":
 			// the first 7 bytes of a request and nothing more (a client that gives up or pauses in the middle of a frame)
 			c := clients[k]
@@ -763,6 +769,19 @@ func runSrv(ts []string) string {
 			_, _ = c.conn.Write(fc3Frame(id, 1)[:7])
 			time.Sleep(3 * time.Millisecond) // let the server read the fragment (detection power only)
 			o = "ok"
+		case "h":
+			// the rest of the request begun by `g`, after a pause (a server that gives up on the frame shows itself)
+			c := clients[k]
+			if c == nil {
+				o = "nc"
+				break
+			}
+			time.Sleep(250 * time.Millisecond)
+			if _, err := c.conn.Write(fc3Frame(id, 1)[7:]); err != nil {
+				o = "eof"
+				break
+			}
+			o = c.readReply(id)
 		case "b":
 			// a request whose (padded) reply does not fit into the socket buffers: the server blocks in Write
 			c := clients[k]
